@@ -8,6 +8,10 @@
      src-psync    the offset a (re)PSYNC asked for
      tgt-exec     one transaction executed by the target: the pushes it applied (as command indices)
                   and the checkpoint offset it stored (-1: none / a write outside any transaction)
+     restart      the tool PROCESS was killed (SIGKILL) and is started again; n = the checkpoint the
+                  target holds at that moment (-1: none, the next PSYNC must ask for a full sync)
+     e2e-end      final state of a run with kills: every push applied exactly once, the stored
+                  checkpoint is the end of the stream
    Judged per transaction, i.e. at every moment a crash could leave the target in:
      CkptAtomic + ExactlyOnce   the pushes of the transaction are exactly the push commands whose end
                                 lies in (previous checkpoint, new checkpoint], in stream order;
@@ -32,17 +36,20 @@ EventOK(ev) ==
     [] ev.e = "src-psync" -> IF conns = 0 /\ ~resumed THEN ev.off = -1000000          \* nothing stored: a full resynchronisation is asked for
                              ELSE ev.runid_ok /\ ev.off = recv + 1                      \* continue at the next byte (a wrong run id makes the scripted
                                                                                          \*  source answer with a new full sync, as a real master does)
+    [] ev.e = "restart" -> ev.n = ckpt \/ (ev.n = -1 /\ ckpt = 0)        \* what the target holds is the checkpoint of its last transaction
+    [] ev.e = "e2e-end" -> ev.missing = 0 /\ ev.dup = 0 /\ ev.sent = ev.stream_len /\ ev.stored = ends[Len(ends)] /\ ckpt = ev.stored
     [] OTHER -> TRUE
 TInit == l = 1 /\ bad = 0 /\ ends = <<>> /\ pushIdx = <<>> /\ recv = 0 /\ sending = 0 /\ ckpt = 0 /\ conns = 0 /\ resumed = FALSE
 TNext == /\ l <= Len(Trace) /\ l' = l + 1
          /\ LET ev == Trace[l] IN
             /\ ends' = IF ev.e = "cfg" THEN ev.ends ELSE ends
             /\ pushIdx' = IF ev.e = "cfg" THEN ev.push_idx ELSE pushIdx
-            /\ recv' = IF ev.e = "tool-recv" THEN recv + ev.n ELSE IF ev.e = "resume-from" THEN ev.n ELSE IF ev.e = "cfg" THEN 0 ELSE recv
+            /\ recv' = IF ev.e = "tool-recv" THEN recv + ev.n ELSE IF ev.e = "resume-from" THEN ev.n ELSE IF ev.e = "cfg" THEN 0
+                       ELSE IF ev.e = "restart" THEN (IF ev.n = -1 THEN 0 ELSE ev.n) ELSE recv
             /\ sending' = IF ev.e = "src-sending" /\ ev.n > sending THEN ev.n ELSE IF ev.e = "cfg" THEN 0 ELSE sending
             /\ ckpt' = IF ev.e = "tgt-exec" /\ ev.ckpt > ckpt THEN ev.ckpt ELSE IF ev.e = "resume-from" THEN ev.n ELSE IF ev.e = "cfg" THEN 0 ELSE ckpt
-            /\ conns' = IF ev.e = "src-psync" THEN conns + 1 ELSE IF ev.e = "cfg" THEN 0 ELSE conns
-            /\ resumed' = IF ev.e = "cfg" THEN FALSE ELSE (resumed \/ ev.e = "resume-from")
+            /\ conns' = IF ev.e = "src-psync" THEN conns + 1 ELSE IF ev.e \in {"cfg", "restart"} THEN 0 ELSE conns
+            /\ resumed' = IF ev.e = "cfg" THEN FALSE ELSE IF ev.e = "restart" THEN ev.n # -1 ELSE (resumed \/ ev.e = "resume-from")
             /\ IF EventOK(ev) THEN bad' = bad ELSE PrintT(<<"REJECT", l>>) /\ bad' = bad + 1
 TSpec == TInit /\ [][TNext]_vars
 Accepted == TLCGet("stats").diameter - 1 = Len(Trace)
